@@ -20,7 +20,7 @@ Proof.
   - (* the main path: abort is closed, the steady phase (if any) ends *)
     destruct r; cbn in Hp; unfold core_facts, sst_facts, prod_facts, core_exiting in Hp; cbn in Hp; inv_hyps; try discriminate.
     unfold w_run, steadyb; cbn.
-    destruct prod0 as [| |[|]|]; cbn in *; try contradiction;
+    destruct prod0 as [| |[|]| |]; cbn in *; try contradiction;
       destruct core0; cbn in *; inv_hyps; try contradiction; try discriminate;
       destruct k; cbn in *; inv_hyps; try subst abort0; cbn in *; try contradiction; try discriminate; try congruence; try lia.
 Qed.
